@@ -33,7 +33,7 @@ def h_conform(m, ctx, nlines, menu_name, trailing=True, first_pass=False, mix_le
             'pre_temp': syms_of(pre_temp) if pre_temp is not None else None, 'pre_out': syms_of(pre_out) if pre_out is not None else None,
             'source_shown': show_bytes(source)}
     ctx.notes['lines'] = desc
-    ctx.notes['native_check'] = {'kind': 'pp', 'data': {k: data[k] for k in ('source', 'inc', 'cmd_results', 'trailing')}, 'ok': impl_ok,
+    ctx.notes['native_check'] = {'kind': 'pp', 'data': {k: data[k] for k in ('source', 'inc', 'cmd_results', 'trailing', 'pre_temp', 'pre_out')}, 'ok': impl_ok,
                                  'out': syms_of(out) if (impl_ok and out is not None) else None}
     try:
         spec = specpp.process(ctx, source, se, trailing)
@@ -92,6 +92,16 @@ def jobs(tier):
                                   'final_newline': True}})
         js.append({'name': 'text over an older output of 5 bytes', 'harness': (H, 'h_conform'),
                    'params': {'nlines': 1, 'menu_name': 'small', 'fixed': ['text'], 'le_choices': (b'\n',), 'pre_out_len': 5}})
+        # a file that is written (temp) and included more than once in one source: every include sees what is on disk at that moment
+        js.append({'name': 'temp / include it / temp again / include it again', 'harness': (H, 'h_conform'),
+                   'params': {'nlines': 6, 'menu_name': 'small+', 'fixed': ['temp', 'cont prefix', 'include t.tmp', 'temp other', 'cont plus', 'include t.tmp'],
+                              'le_choices': (b'\n',), 'final_newline': True}})
+        js.append({'name': 'include a pre-existing file, overwrite it by temp, include it again', 'harness': (H, 'h_conform'),
+                   'params': {'nlines': 4, 'menu_name': 'small+', 'fixed': ['include t.tmp', 'temp', 'cont prefix', 'include t.tmp'],
+                              'le_choices': (b'\n',), 'final_newline': True, 'pre_temp_len': 2}})
+        for sc in (['temp tab', 'cont hash'], ['run tab', 'cont hash'], ['empty tab', 'text']):
+            js.append({'name': 'TAB after the directive name is text: ' + '/'.join(sc), 'harness': (H, 'h_conform'),
+                       'params': {'nlines': len(sc), 'menu_name': 'small+', 'fixed': sc, 'le_choices': (b'\n',)}})
         for fill in (8189, 8190):
             js.append({'name': 'first line of %d+2 bytes, then an include' % fill, 'harness': ('props.c16', 'h_long_first_line'),
                        'params': {'fill': fill, 'second': b'-TXTPP#include f'}, 'max_steps': 8_000_000})
